@@ -579,6 +579,10 @@ class ANF:
             raise Unsupported("comprehension target")
 
     def binop(self, op, a, b):
+        if isinstance(op, ast.Add) and (_listlike(a) or _listlike(b)):
+            return ("op", "++", a, b)          # sequence concatenation is ordered
+        if isinstance(op, ast.Mult) and (_listlike(a) or _listlike(b)):
+            return ("op", "**rep", a, b)        # sequence repetition
         if type(op) in AC_OPS:
             return mk_opn(AC_OPS[type(op)], [a, b])
         sym = BIN_OPS.get(type(op))
@@ -746,6 +750,25 @@ def roots(t):
         else:
             out.add(key(x))
     return out
+
+
+def _listlike(t):
+    """term that denotes a Python list / tuple (where + concatenates)"""
+    if not isinstance(t, tuple) or not t:
+        return False
+    if t[0] in ("list", "tuple"):
+        return True
+    if t[0] == "new" and t[2] in ("list",):
+        return True
+    if t[0] == "comp" and t[1] in ("ListComp",):
+        return True
+    if t[0] == "call" and t[1] in (("x", "builtins.list"), ("x", "builtins.tuple"), ("x", "builtins.sorted")):
+        return True
+    if t[0] == "op" and t[1] in ("++", "**rep"):
+        return True
+    if t[0] == "upd":
+        return _listlike(t[1])
+    return False
 
 
 def truth(t):
